@@ -157,6 +157,7 @@ KEYWORDS = "|".join(
             "LOCATE",
             "LOG",
             "NOT",
+            "ON",
             "OR",
             "MID$",
             "NEXT",
